@@ -5,6 +5,7 @@ import ast
 import copy
 from typing import Dict, List, Optional, Tuple
 
+from .. import oracles as O
 from ..fold import Scope, Unfoldable, dotted, src
 from .common import (attr_stores, ctx, ff_for, find_calls, must_pass, node_calls, own_nodes, path_text, substitute,
                      substitute_src)
@@ -229,7 +230,36 @@ def _get_unaligned(chk, folder, ff, f, iff):
     # BOOLEAN substitution
     sub = [n for n in body if isinstance(n, ast.If) and ff.is_form(n.test, "data_type == objectdictionary.BOOLEAN")]
     ok = len(sub) == 1 and len(sub[0].body) == 1 and src(sub[0].body[0]) == "data_type = objectdictionary.UNSIGNED8"
-    chk.check(ok, "R6", f"{site} | BOOLEAN handled as UNSIGNED8", f.loc(iff), "")
+    # decided by evaluation where possible: the key used for STRUCT_TYPES, specialised for the object's data type, is UNSIGNED8 for
+    # BOOLEAN and the type itself otherwise (an if statement, a conditional expression, a dictionary of substitutions: all the same)
+    from .common import partial_eval as _pe, substitute_src as _ssrc
+    keys = [n for st_ in body for n in ast.walk(st_) if isinstance(n, ast.Subscript) and src(n.value).endswith("STRUCT_TYPES") and isinstance(n.ctx, ast.Load)]
+    decided = None
+    if keys:
+        kst = next((st_ for st_ in body if any(k_ is keys[0] for k_ in ast.walk(st_))), None)
+        pre = body[:body.index(kst)] if kst in body else None
+        if pre is not None and all(isinstance(p_, (ast.Assign, ast.AugAssign, ast.If)) for p_ in pre):
+            decided = True
+            why = ""
+            for tname in ("BOOLEAN", "UNSIGNED8", "INTEGER16", "REAL32", "UNSIGNED64"):
+                code = O.DATA_TYPES[tname][0]
+                stmts = [ast.fix_missing_locations(_ssrc_stmt(p_, {"self.od.data_type": code})) for p_ in pre] + \
+                        [ast.fix_missing_locations(ast.Return(value=_ssrc(keys[0].slice, {"self.od.data_type": code})))]
+                fnode = ast.FunctionDef(name="__k", args=ast.arguments(posonlyargs=[], args=[], kwonlyargs=[], kw_defaults=[], defaults=[]), body=stmts, decorator_list=[])
+                ast.fix_missing_locations(fnode)
+                r_ = _pe(folder, fnode, f.mod, f.cls, {})
+                want_ = O.DATA_TYPES["UNSIGNED8"][0] if tname == "BOOLEAN" else code
+                if r_[0] != "return":
+                    decided = None
+                    break
+                if r_[1] != want_:
+                    decided = False
+                    why = f"for an object of type {tname} the codec of type code {r_[1]!r} is used; expected {want_} ({'BOOLEAN is packed as UNSIGNED8' if tname == 'BOOLEAN' else 'the type itself'})"
+                    break
+    if decided is None:
+        chk.check(ok, "R6", f"{site} | BOOLEAN handled as UNSIGNED8", f.loc(iff), "")
+    else:
+        chk.check(decided, "R6", f"{site} | BOOLEAN handled as UNSIGNED8", f.loc(iff), why, "specialised for five data types")
     # the field mask must apply on every path of the unaligned branch: a mask under a further condition leaves the bits above
     # the field (the neighbouring objects) in the value on the other paths
     for n in [x for b_ in body for x in ast.walk(b_) if isinstance(x, (ast.AugAssign, ast.Assign))]:
@@ -312,6 +342,14 @@ def _get_unaligned(chk, folder, ff, f, iff):
     chk.check(len(packs) == 1, "R4", f"{site} | integer result encoded with the object's codec", f.loc(iff), "")
     od = [n for n in body if isinstance(n, ast.Assign) and src(n.targets[0]) == "od_struct"]
     chk.check(len(od) == 1 and src(od[0].value) == "self.od.STRUCT_TYPES[data_type]", "R4", f"{site} | codec of the object's type", f.loc(iff), "")
+
+
+def _ssrc_stmt(st: ast.stmt, mapping):
+    """substitute_src applied to every expression of a (possibly compound) statement."""
+    import copy as _copy
+    from .common import _SubstSrc
+    m = {k: (v if isinstance(v, ast.AST) else ast.Constant(value=v)) for k, v in mapping.items()}
+    return _SubstSrc(m).visit(_copy.deepcopy(st))
 
 
 def _sign_pred(ff, p: ast.expr) -> Optional[bool]:
